@@ -1,5 +1,5 @@
 """C18 — random joint vectors drawn from constraints always satisfy them."""
-import collections
+import collections, math
 import common as C
 
 ID = "C18"
@@ -45,7 +45,10 @@ def correspondence(tier, seed, n=None):
         dist[kind] += 1
         glo, ghi = C.f64(r["lo"][i]), C.f64(r["hi"][i])
         w = hi - lo
-        if w < 1e-9:
+        turns = (f - t) / (2 * math.pi)
+        if w < 1e-9 or (f > t and abs(turns - round(turns)) < 1e-9):
+            # zero width, or reversed limits a whole number of turns apart (e.g. 249.875 and -110.125 degrees): whether the arc is a
+            # point or a full turn is decided by the last bit of from - to; the property speaks of arcs of positive width
             undec += 1
             continue
         compared += 1
